@@ -230,12 +230,20 @@ def evictReport (now : Nat) (srv : Table) : Table → List BList → List (BList
     r.1 ++ (p.2.filter fun e => !live now e).filterMap (fun e => (aliasOf e).map fun a => (p.1, a)) ++
       evictReport now srv rest r.2
 
-/-- `evict_expired_services` -/
+/-- every name keeps its entries with `expires > now`; names left without entries go
+    (the second pass of `evict_expired_services`, repair of D19: it also reaches SRV, TXT and
+    NSEC records that no PTR points to) -/
+def evictLive (now : Nat) (t : Table) : Table :=
+  t.filterMap fun p => if (p.2.filter (live now)).isEmpty then none else some (p.1, p.2.filter (live now))
+
+/-- `evict_expired_services`: the first pass (PTR by PTR) decides what is reported; after the
+    second pass every table holds exactly its unexpired entries -/
 def evictServices (c : Cache) (now : Nat) : Cache × List (BList × BList) :=
   ({ c with
-      ptr := evictPtr now c.ptr
-      srv := evictSrv now (ptrAliases c.ptr) c.srv
-      txt := evictTxt now (ptrAliases c.ptr) c.txt },
+      ptr := evictLive now c.ptr
+      srv := evictLive now c.srv
+      txt := evictLive now c.txt
+      nsec := evictLive now c.nsec },
    evictReport now c.srv c.ptr [])
 
 /-! ### Known answers (querier side, RFC 6762 section 7.1) -/
